@@ -27,7 +27,10 @@ type jobRes struct {
 	Run  int         `json:"run"`
 	Obs  abi.ScanObs `json:"obs"`
 	Heap uint64      `json:"heap"` // bytes allocated by this call
-	Done bool        `json:"done,omitempty"`
+	// truncations only: how the outcome differs when the same bytes are handed
+	// over as a re-slice of a longer buffer (spare capacity) instead of an exact copy
+	SpareDiff string `json:"spare_diff,omitempty"`
+	Done      bool   `json:"done,omitempty"`
 }
 
 const (
@@ -74,6 +77,7 @@ func childMain(jobFile string) {
 			os.Exit(3)
 		}
 		res := dig.VerifNewResult(ev)
+		spare := dig.VerifNewResult(ev) // decoder fed with re-slices of longer buffers
 		r0 := 0
 		if di == startDecl {
 			r0 = startRun
@@ -94,7 +98,29 @@ func childMain(jobFile string) {
 					obs.Rows[i][j].B = nil
 				}
 			}
-			enc.Encode(jobRes{Decl: di, Run: ri, Obs: obs, Heap: m1.TotalAlloc - m0.TotalAlloc})
+			diff := ""
+			if m := d.Muts[ri]; m.Kind == "trunc" && obs.Kind != "panic" {
+				// the same prefix with spare capacity: the tail holds the rest of the
+				// original data, then 0xff bytes
+				for variant := 0; variant < 2 && diff == ""; variant++ {
+					full := make([]byte, len(d.Base)+64)
+					copy(full, d.Base)
+					for i := len(d.Base); i < len(full); i++ {
+						full[i] = 0xff
+					}
+					if variant == 1 {
+						for i := m.N; i < len(full); i++ {
+							full[i] = 0xff
+						}
+					}
+					o2 := abi.RunScan(spare, full[:m.N])
+					if o2.Kind == "panic" {
+						spare = dig.VerifNewResult(ev)
+					}
+					diff = obsDiff(obs, o2)
+				}
+			}
+			enc.Encode(jobRes{Decl: di, Run: ri, Obs: obs, Heap: m1.TotalAlloc - m0.TotalAlloc, SpareDiff: diff})
 			if obs.Kind == "panic" {
 				res = dig.VerifNewResult(ev)
 			}
@@ -102,4 +128,26 @@ func childMain(jobFile string) {
 	}
 	enc.Encode(jobRes{Done: true})
 	w.Flush()
+}
+
+// obsDiff: how two observations of the same bytes differ (outcome, rows, cells).
+func obsDiff(a, b abi.ScanObs) string {
+	if a.Kind != b.Kind {
+		return fmt.Sprintf("exact-capacity input: %s, re-slice of a longer buffer: %s %s", a.Kind, b.Kind, b.PanicMsg)
+	}
+	if a.Kind != "ok" {
+		return ""
+	}
+	if len(a.Rows) != len(b.Rows) {
+		return fmt.Sprintf("%d rows vs %d rows", len(a.Rows), len(b.Rows))
+	}
+	for i := range a.Rows {
+		for j := range a.Rows[i] {
+			x, y := a.Rows[i][j], b.Rows[i][j]
+			if x.Present != y.Present || x.Off != y.Off || x.Len != y.Len {
+				return fmt.Sprintf("row %d column %d: cell (%d,%d) vs (%d,%d)", i, j, x.Off, x.Len, y.Off, y.Len)
+			}
+		}
+	}
+	return ""
 }
